@@ -123,6 +123,9 @@ async function execute (plan, table) {
   const resp = table.get(job)
   const log = []
   if (!resp.ok) {
+    // a refusal is the rewriter's decision, not a defect of the generated workload (the scheduled programs
+    // mention no reserved name; refusing them is not what C06 forbids): counted, not a harness error
+    if (/Variable name duplicated/.test(String(resp.err))) { rep.notes.push('refused although no reserved-prefix identifier is mentioned'); st('rewrite-refused-without-reserved-name'); rep.logDigest = fnv32('refused'); return rep }
     rep.notes.push('GEN: rewrite failed: ' + String(resp.err || resp.panic).slice(0, 100))
     rep.logDigest = fnv32('rewrite failed')
     return rep
